@@ -311,6 +311,8 @@ def d4_infallible(site, body):
         c = site.call
         if len(c.arg_tys) > 1 and "RangeFull" in c.arg_tys[1]:
             return "D4: RangeFull index"
+    if site.kind == "api" and site.what in ("Vec::drain",) and len(site.call.arg_tys) > 1 and "RangeFull" in site.call.arg_tys[1]:
+        return "D4: drain(..) over the full range"
     return None
 
 
@@ -444,7 +446,112 @@ def rule_alloc_size(site, body):
     return None
 
 
-DEFAULT_RULES = [d1_option_guard, d2_map_guard, d4_infallible, d5_counter, rule_buffer_bounds, rule_alloc_size]
+def _range_const(body, op):
+    """(kind, n) for RangeTo(..n) / RangeToInclusive / Range(0..n) aggregates with constant bounds"""
+    r = flow.root(body, op)
+    if r[0] == "rv" and r[1]["k"] == "agg" and r[1].get("agg") == "adt":
+        adt = r[1]["adt"].rsplit("::", 1)[-1]
+        vals = [flow.const_of(o) for o in r[1]["ops"]]
+        if adt == "RangeTo" and vals[0] is not None:
+            return vals[0]
+        if adt == "Range" and None not in vals:
+            return vals[1]
+        if adt == "RangeToInclusive" and vals[0] is not None:
+            return vals[0] + 1
+    return None
+
+
+def rule_const_slice(site, body):
+    """buf[..N] with constant N, dominated by a guard len >= M, M >= N"""
+    if site.kind != "index":
+        return None
+    c = site.call
+    if len(c.args) < 2:
+        return None
+    n = _range_const(body, c.args[1])
+    if n is None:
+        return None
+    g = const_remaining_guard(site, body, n)
+    return ("D6-rule: constant range ..%d, %s" % (n, g)) if g else None
+
+
+def _static_len(body, op):
+    """statically known length of a slice operand: &[T; N] unsized, or buf[..N]"""
+    r = flow.root(body, op, through_calls=())
+    l = op_local(op)
+    # unsize cast from an array reference
+    cur = op
+    for _ in range(6):
+        rr = flow.root(body, cur, through_calls=())
+        if rr[0] == "rv" and len(rr) > 4:
+            rv = rr[1]
+            if rv["k"] == "cast" and "Unsize" in rv.get("cast", ""):
+                m = re.search(r"\[[^;\]]+; (\d+)\]", rv.get("from_ty", ""))
+                if m:
+                    return int(m.group(1))
+        if rr[0] == "call" and strip_generics(rr[1].callee) in INDEX:
+            return _range_const(body, rr[1].args[1])
+        break
+    # look one step through plain copies
+    d = flow.single_def(body, l) if l is not None else None
+    if d and d[0] == "assign":
+        rv = d[3]
+        if rv["k"] == "cast" and "Unsize" in rv.get("cast", ""):
+            m = re.search(r"\[[^;\]]+; (\d+)\]", rv.get("from_ty", ""))
+            if m:
+                return int(m.group(1))
+        if rv["k"] in ("use", "ref"):
+            inner = rv.get("op") or {"k": "copy", "pl": rv["pl"]}
+            if inner.get("k") in ("copy", "move"):
+                d2 = flow.single_def(body, inner["pl"]["l"])
+                if d2 and d2[0] == "call" and strip_generics(d2[2].callee) in INDEX:
+                    return _range_const(body, d2[2].args[1])
+                if d2 and d2[0] == "assign" and d2[3]["k"] in ("use", "ref"):
+                    inner2 = d2[3].get("op") or {"k": "copy", "pl": d2[3]["pl"]}
+                    if inner2.get("k") in ("copy", "move"):
+                        d3 = flow.single_def(body, inner2["pl"]["l"])
+                        if d3 and d3[0] == "call" and strip_generics(d3[2].callee) in INDEX:
+                            return _range_const(body, d3[2].args[1])
+    return None
+
+
+def rule_copy_from_slice(site, body):
+    if site.kind != "api" or site.what != "<impl [T]>::copy_from_slice":
+        return None
+    a = _static_len(body, site.call.args[0])
+    b = _static_len(body, site.call.args[1])
+    if a is not None and a == b:
+        return "D6-rule: both slices have the static length %d" % a
+    return None
+
+
+def rule_sub_guard(site, body):
+    """len - N with a dominating guard len >= N"""
+    if site.kind != "assert" or site.what != "overflow:Sub":
+        return None
+    det = site.extra.get("detail", {})
+    n = flow.const_of(det.get("b", {}))
+    if n is None or op_local(det.get("a", {})) not in len_derived(body):
+        return None
+    g = const_remaining_guard(site, body, n)
+    return ("D6-rule: len - %d, %s" % (n, g)) if g else None
+
+
+def rule_div_const(site, body):
+    """division / remainder by a non-zero constant"""
+    if site.kind == "assert" and site.what in ("div_zero", "rem_zero"):
+        c = flow.root(body, site.extra["cond"])
+        if c[0] == "rv" and c[1]["k"] == "binop":
+            v = flow.const_of(c[1]["a"])
+            if v is None:
+                rr = flow.root(body, c[1]["a"])
+                v = flow.const_of(rr[1]) if rr[0] == "const" else None
+            if v not in (None, 0):
+                return "D4: division by the non-zero constant %s" % v
+    return None
+
+
+DEFAULT_RULES = [d1_option_guard, d2_map_guard, d4_infallible, d5_counter, rule_buffer_bounds, rule_alloc_size, rule_const_slice, rule_copy_from_slice, rule_sub_guard, rule_div_const]
 
 
 def analyse(ctx, bodies, rule_prefix, extra_rules=(), table=None, skip=None, include_alloc=True, F=None, must_ok=None):
